@@ -27,6 +27,7 @@ SimNext == \/ SimPick
            \/ Start
            \/ \E v \in 1..NN : PopVisit(v)
            \/ \E v \in 1..NN : PopDefer(v)
+           \/ \E v \in 1..NN : Requeue(v)
            \/ \E e \in 1..MaxE, x \in 1..4 : UpdateEdgeWith(e, x)
            \/ FinishNode
            \/ Finish
